@@ -74,6 +74,11 @@ class SetFlavour(E.MapFlavour):
             return ["eim", K, str(rnd.choice([0, 2])), a]
         return ["eic", K, str(rnd.choice([0, 2])), a]
 
+    def post_clear_op(self, rnd, k):
+        if self.multi:
+            return ["insm", qt(k)]
+        return rnd.choice([["ins", qt(k)], ["ieim", qt(k), "0", qt(self.rand_val(rnd))]])
+
     def rand_val(self, rnd):
         return rnd.choice(["", "x", "yz", "arg", "q"]) if self.kk == "s" else str(rnd.randrange(0, 50))
 
@@ -236,7 +241,7 @@ ASSUME = ["every operation is executed exactly once, atomically, on owner(key) b
 
 def run(tier, seed, model_ok=True):
     # a set's quiet workloads are cheap: more cases per flavour than C11
-    return E.run_flavours(FLAVOURS + FLAVOURS[:2], tier, seed + 1000, model_ok, RULE, ASSUME)
+    return E.run_flavours(FLAVOURS + FLAVOURS[:2], tier, seed + 1000, model_ok, RULE, ASSUME, race_env="C12_POST_CLEAR_NOBARRIER")
 
 
 def replay(data):
